@@ -226,6 +226,11 @@ func (c *Ctx) runPartitionCase(bt *Batch, r *RNG, i, a, b, iv, last int) {
 		}
 		d := d
 		in2 := map[string]any{"window": in, "d": d, "date": dayTime(d).Format("2006-01-02")}
+		// Partition.Contains decides which days' bookings enter a report at all: exactly the days of the window, also
+		// with --last (days before the first shown period are attributed to the first period, not dropped)
+		implC := part.Contains(dayTime(d))
+		bt.Add(func(m string) { c.Compare("partition", i, "contains", in2, fmt.Sprint(implC), m) }, "contains", itoa(a), itoa(b), itoa(iv), itoa(last), itoa(d))
+		c.Monitor("partition", i, "contains_iff_in_window", in2, implC == (a <= d && d <= b), fmt.Sprintf("Contains(%s)=%v for the window %d..%d", dayTime(d).Format("2006-01-02"), implC, a, b))
 		bt.Add(func(modelA string) { c.Compare("partition", i, "align", in2, implA, modelA) }, "align", itoa(a), itoa(b), itoa(iv), itoa(last), itoa(d))
 		bt.Add(func(monA string) {
 			c.Monitor("partition", i, "alignOK", in2, monA == "ok", "align("+itoa(d)+")="+implA+" over "+impl+" => "+monA)
